@@ -64,11 +64,13 @@ def _general_safety():
         it.ctx.assume(z3.ForAll([j], z3.Implies(z3.And(j >= 0, j < n), z3.Or(z3.Select(par.arr, j) == 0, z3.Select(par.arr, j) == 1))))
         it.ctx.assume(z3.ForAll([j], z3.Implies(z3.And(j >= 0, j < perm.length), z3.And(z3.Select(perm.arr, j) >= -n, z3.Select(perm.arr, j) < n))))  # axes may count from the end
 
+        # memory safety and "the result is a sign" need no fact about the counter: no invariant on incidental
+        # temporaries (an earlier `swaps >= 0` turned a comprehension-for-loop refactoring into an `unknown`)
         def inv_outer(it_, env, g):
-            return [("swaps_nonneg", I(env.vars["swaps"]) >= 0)]
+            return []
 
         def inv_inner(it_, env, g):
-            return [("swaps_nonneg", I(env.vars["swaps"]) >= 0)]
+            return []
 
         it.loop_specs[(Q, 0)] = LoopSpec(carried={"swaps": "int", "moved": ("set", TInt)}, invariant=inv_outer)
         it.loop_specs[(Q, 1)] = LoopSpec(carried={"swaps": "int"}, invariant=inv_inner)
